@@ -1,0 +1,133 @@
+//go:build verif
+
+// Contracts for package types, checked by /verif/engine (govc). Compiled only
+// with the build tag "verif".
+package types
+
+import (
+	"context"
+	"errors"
+	"time"
+)
+
+var (
+	_ context.Context
+	_ time.Time
+)
+
+// ghost vocabulary (interpreted by govc; bodies are never executed)
+
+func old[T any](x T) T       { return x }
+func implies(a, b bool) bool { return !a || b }
+func iff(a, b bool) bool     { return a == b }
+func ite[T any](c bool, a, b T) T {
+	if c {
+		return a
+	}
+	return b
+}
+func is[T any](v any) bool                       { _, ok := v.(T); return ok }
+func as[T any](v any) T                          { return v.(T) }
+func errIs(err, target error) bool               { return errors.Is(err, target) }
+func fresh(p any) bool                           { return true }
+func ncalls(f any) int                           { return 0 }
+func callarg[T any](f any, name string) T        { var z T; return z }
+func callret[T any](f any, i int) T              { var z T; return z }
+func forall(f any) bool                          { return true }
+func exists(f any) bool                          { return true }
+func uninterp[T any](name string, args ...any) T { var z T; return z }
+
+//@ sweep safety C18
+
+// ---------------------------------------------------------------------------
+// constructors and conversions: the result is a fresh, non-nil value
+
+//@ func NewDate
+//@ props C17 C18 C05
+//@ pure
+//@ ensures nonnil: r0 != nil
+
+//@ func NewTime
+//@ props C17 C18 C05
+//@ pure
+//@ ensures nonnil: r0 != nil
+
+//@ func NewTimeTZ
+//@ props C17 C18 C05
+//@ pure
+//@ ensures nonnil: r0 != nil
+
+//@ func NewTimestamp
+//@ props C17 C18 C05
+//@ pure
+//@ ensures nonnil: r0 != nil
+
+//@ func NewTimestampTZ
+//@ props C17 C18 C05
+//@ pure
+//@ ensures nonnil: r0 != nil
+
+//@ func (*Date).ToTimestamp
+//@ props C17 C18 C05
+//@ pure
+//@ ensures nonnil: r0 != nil
+
+//@ func (*Date).ToTimestampTZ
+//@ props C17 C18 C05
+//@ pure
+//@ ensures nonnil: r0 != nil
+
+//@ func (*Time).ToTimeTZ
+//@ props C17 C18 C05
+//@ pure
+//@ ensures nonnil: r0 != nil
+
+//@ func (*Timestamp).ToDate
+//@ props C17 C18 C05
+//@ pure
+//@ ensures nonnil: r0 != nil
+
+//@ func (*Timestamp).ToTime
+//@ props C17 C18 C05
+//@ pure
+//@ ensures nonnil: r0 != nil
+
+//@ func (*Timestamp).ToTimestampTZ
+//@ props C17 C18 C05
+//@ pure
+//@ ensures nonnil: r0 != nil
+
+//@ func (*TimestampTZ).ToDate
+//@ props C17 C18 C05
+//@ pure
+//@ ensures nonnil: r0 != nil
+
+//@ func (*TimestampTZ).ToTime
+//@ props C17 C18 C05
+//@ pure
+//@ ensures nonnil: r0 != nil
+
+//@ func (*TimestampTZ).ToTimestamp
+//@ props C17 C18 C05
+//@ pure
+//@ ensures nonnil: r0 != nil
+
+//@ func (*TimestampTZ).ToTimeTZ
+//@ props C17 C18 C05
+//@ pure
+//@ ensures nonnil: r0 != nil
+
+//@ func (*TimeTZ).ToTime
+//@ props C17 C18 C05
+//@ pure
+//@ ensures nonnil: r0 != nil
+
+//@ func TZFromContext
+//@ props C17 C18
+//@ pure
+//@ ensures nonnil: r0 != nil
+
+//@ func adjustPrecision
+//@ props C17 C18
+//@ mode bv
+//@ ensures [C17] no-precision: precision < 0 ==> r0 == value
